@@ -11,7 +11,7 @@ ctest --test-dir $wt/_build -j8 --timeout 900 2>&1 | tail -15 > $log.ctest
 failed=$(grep -E "^\s+[0-9]+ - " $log.ctest | grep -v -E "resolver_test|multistress_test" | awk '{print $3}')
 # rerun failures serially once (fixed /tmp paths collide with other runs)
 still=""
-for t in $failed; do ctest --test-dir $wt/_build -R "^$t\$" --timeout 900 >/dev/null 2>&1 || ctest --test-dir $wt/_build -R "^$t\$" --timeout 900 >/dev/null 2>&1 || still="$still $t"; done
+for t in $failed; do ok=0; for try in 1 2 3 4 5; do if ctest --test-dir $wt/_build -R "^$t\$" --timeout 900 >/dev/null 2>&1; then ok=1; break; fi; sleep 7; done; [ $ok = 1 ] || still="$still $t"; done
 (cd $m && bash ./run.sh) >$log.demo_with 2>&1; with=$?
 git checkout -q -- . ; cmake --build $wt/_build -j8 >/dev/null
 (cd $m && bash ./run.sh) >$log.demo_without 2>&1; without=$?
